@@ -6,7 +6,8 @@ from .sym import Tracer, Term, Cmp, k, as_term, walk_terms
 LEVEL = ("Static analysis of linfa-reduction's PCA: (guard) the empty-dataset test and the embedding-size tests (size outside "
          "1..p) return their errors before the first reduction or decomposition of the records; (n) the divisor that turns "
          "squared singular values into explained variances is data-dependent on the training sample count recorded at fit "
-         "time (sigma^2/(n-1)), not on the number of components. Necessary conditions of 'an empty dataset or an embedding "
+         "time (sigma^2/(n-1)), not on the number of components; (project) predict is (x - mean).components^T and inverse_transform composed with it "
+         "normalises (non-commutative normal form over dot/+/-/t) to x.E^T.E - m.E^T.E + m, the projection about the mean. Necessary conditions of 'an empty dataset or an embedding "
          "size outside 1..p is an error' and 'reported explained variances are singular value squared over n-1'; spectral "
          "optimality and orthonormality are not decided.")
 ASSUME = ["rustc resolution/typeck; HIR faithfully dumped", "feature=blas branch is not compiled offline and is not analysed"]
